@@ -6,7 +6,7 @@ from vlib import strings as S
 
 ID = "C01"
 # look-alikes of prelude names (vlib/defs.py HOSTILE) this check's derives are immune to on the unchanged tree
-HOSTILE_OK = ['From', 'Result', 'Some', 'Ok', 'Iterator', 'Clone', 'AsRef', 'Send', 'PhantomData', 'IterGet', 'm_matches', 'm_assert', 'm_fmt', 'c_binders']
+HOSTILE_OK = ['From', 'Result', 'Some', 'Ok', 'Iterator', 'Clone', 'AsRef', 'Send', 'PhantomData', 'IterGet', 'm_matches', 'm_assert', 'm_fmt', 'c_binders', 'ByValue']
 PROP_FILE = "Props/C01.v"
 RULE = ("definitions: regression + systematic (kind x {no attr, to_string, 1-3 serialize, both} x variant flag {none,true,false} "
         "x enum flag x serialize_all) + seeded random enums (0-8 variants, disabled / default / default_with / generics / custom "
